@@ -645,7 +645,9 @@ CHECKS["C10"]["jobs"].append(J("stalled-clients", VBB, "TestC10StalledClients", 
 CHECKS["C10"]["required_classes"]["all"] += ["stalled-client:sasl"]
 CHECKS["C04"]["required_classes"]["all"] += ["bb-frontend:https-basic-auth", "bb-frontend:ldaps"]
 CHECKS["C04"]["level_text"] += " The black-box job also starts the agent socket-activated (runsa) and with TLS listeners (https, ldaps with a self-signed certificate)."
-CHECKS["C04"]["assumptions"] = ["the TLS listeners are exercised by the black-box job only (self-signed certificate, verification off); StartTLS on the plain LDAP listener is not generated"]
+CHECKS["C04"]["assumptions"] = ["the TLS listeners (https, ldaps, StartTLS on the plain LDAP listener) are exercised by the black-box job only (self-signed certificate, verification off)"]
+CHECKS["C04"]["required_classes"]["all"] += ["bb-frontend:ldap-starttls"]
+CHECKS["C04"]["level_text"] += " Plain LDAP listeners with a certificate are probed both without and after a StartTLS upgrade (own BER client)."
 CHECKS["C11"]["required_classes"]["all"] += ["free-running:logins-racing-set-admin-of-the-same-user"]
 CHECKS["C12"]["required_classes"]["all"] += ["work-area-holds-leftovers-of-killed-writers"]
 CHECKS["C18"]["required_classes"]["all"] += ["reload:no-sets", "reload:agent-started-with-do-check=false"]
